@@ -140,71 +140,54 @@ LOG_FMTS = ['.10e', '.3f', '.5g', 'e']
 LOG_FILES = [['\t', 'log.txt'], [';', 'log.txt'], ['\t', 'log.csv'], [';', 'sub/hist.csv']]
 
 
-def bounds(tier, seed):
+CONFIGS_EXT = [c for c in CONFIGS if c[2] == FNAMES[0]]
+DEMO_GRIDS = [(2, 2, 0), (2, 2, 2)]
+
+
+def plan(tier, seed):
+    """[(level, grids, units, vector names, value kinds, configs, histories)]: every level is a complete product."""
+    vecs = all_vecs()
+    small = grids_upto(4, 2)
+    u = [UNITS[seed % 3]]
+    other = [k for k in VALUE_KINDS if k != 'gen']
+    h2, h3 = all_histories(2, OPS), all_histories(3, OPS)
     if tier == 'quick':
-        return {'grids': '2-D nx,ny<=4; 3-D nx,ny,nz<=2', 'units': [UNITS[seed % 3]], 'vectors': len(all_vecs()),
-                'value_kinds': ['gen', 'edge'] + [VALUE_KINDS[2 + seed % 3]], 'value_table': seed,
-                'configs': len(CONFIGS), 'history_depth': 3, 'ops': OPS,
-                'vti_histories_per_point': 'all 8 of depth 3 over {new,same} + all 9 of depth 2 over {new,inplace,same}',
-                'log': {'sets': len(LOG_SETS), 'fmts': LOG_FMTS, 'files': LOG_FILES, 'stale_file': [False, True],
-                        'histories': 'all 27 of depth 3'}}
-    return {'grids': '2-D nx,ny<=6; 3-D nx,ny,nz<=3', 'units': UNITS, 'vectors': len(all_vecs()),
-            'value_kinds': VALUE_KINDS, 'value_table': seed, 'configs': len(CONFIGS), 'history_depth': 3, 'ops': OPS,
-            'vti_histories_per_point': 'all 27 of depth 3 over {new,inplace,same}',
-            'log': {'sets': len(LOG_SETS), 'fmts': LOG_FMTS, 'files': LOG_FILES, 'stale_file': [False, True],
-                    'histories': 'all 27 of depth 3'}}
+        return [('vti/shapes: all small grids x all shapes, depth 2', small, u, vecs, ['gen'], CONFIGS, h2),
+                ('vti/value-kinds: two grids x all shapes x other value kinds, depth 2', DEMO_GRIDS, u, vecs, other,
+                 CONFIGS_EXT, h2),
+                ('vti/depth3: two grids x all shapes, depth 3 over {new,same}', DEMO_GRIDS, u, vecs, ['gen'], CONFIGS,
+                 all_histories(3, ['new', 'same']))]
+    larger = [g for g in grids_upto(6, 3) if g not in small]
+    return [('vti/small-grids x all shapes x {gen,edge}, depth 3', small, u, vecs, ['gen', 'edge'], CONFIGS, h3),
+            ('vti/small-grids x all shapes x {int,f32,view}, depth 2', small, u, vecs, ['int', 'f32', 'view'], CONFIGS, h2),
+            ('vti/larger-grids x all element sizes x all shapes, depth 2', larger, UNITS, vecs, ['gen'], CONFIGS, h2)]
+
+
+def bounds(tier, seed):
+    b = {'value_table': seed, 'ops': OPS,
+         'vti_levels': [{'level': nm, 'grids': len(g), 'max_grid': [max(t[i] for t in g) for i in range(3)], 'units': u,
+                         'vector_shapes': len(v), 'value_kinds': vk, 'configs(scale,overwrite,file)': cf,
+                         'histories': len(h), 'max_depth': max(len(x) for x in h)}
+                        for nm, g, u, v, vk, cf, h in plan(tier, seed)],
+         'log': {'signal_sets': LOG_SETS, 'fmts': LOG_FMTS, 'separator_file': LOG_FILES, 'stale_file': [False, True],
+                 'histories': 'all 27 of depth 3 over the three operations'}}
+    return b
 
 
 def generate(tier, seed):
-    quick = tier == 'quick'
-    if quick:
-        grids = grids_upto(4, 2)
-        units = [UNITS[seed % 3]]
-        vkinds = ['gen', 'edge', VALUE_KINDS[2 + seed % 3]]
-        hists = all_histories(3, ['new', 'same']) + all_histories(2, OPS)
-    else:
-        grids = grids_upto(6, 3)
-        units = UNITS
-        vkinds = VALUE_KINDS
-        hists = all_histories(3, OPS)
-    vecs = all_vecs()
-
-    def vti_cases(sel_vecs, sel_grids):
-        for g in sel_grids:
+    yield {'__level__': 'log'}
+    for names in LOG_SETS:
+        for fmt in LOG_FMTS:
+            yield {'kind': 'log', 'signals': names, 'table': seed, 'fmts': [fmt], 'files': LOG_FILES,
+                   'stale': [False, True], 'histories': all_histories(3, OPS)}
+    for name, grids, units, vecs, vkinds, cfgs, hists in plan(tier, seed):
+        yield {'__level__': name}
+        for g in grids:
             for u in units:
-                if g[2] == 0 and u != units[0] and u[:2] == units[0][:2]:
-                    continue
-                for vec in sel_vecs:
+                for vec in vecs:
                     for vk in vkinds:
                         yield {'kind': 'vti', 'grid': list(g), 'unit': list(u), 'vec': vec, 'values': vk, 'table': seed,
-                               'configs': CONFIGS, 'histories': hists}
-
-    def log_cases():
-        for names in LOG_SETS:
-            for fmt in LOG_FMTS:
-                yield {'kind': 'log', 'signals': names, 'table': seed, 'fmts': [fmt], 'files': LOG_FILES,
-                       'stale': [False, True], 'histories': all_histories(3, OPS)}
-
-    flat = [v for v in vecs if '_' not in v]
-    blocks = [v for v in vecs if '_' in v and v not in MULTI]
-    yield {'__level__': 'log'}
-    yield from log_cases()
-    if quick:
-        yield {'__level__': 'vti/flat'}
-        yield from vti_cases(flat, grids)
-        yield {'__level__': 'vti/blocks+multi'}
-        yield from vti_cases(blocks + list(MULTI), grids)
-        return
-    small = grids_upto(4, 2)
-    rest = [g for g in grids if g not in small]
-    yield {'__level__': 'vti/flat/small-grids'}
-    yield from vti_cases(flat, small)
-    yield {'__level__': 'vti/blocks+multi/small-grids'}
-    yield from vti_cases(blocks + list(MULTI), small)
-    yield {'__level__': 'vti/flat/larger-grids'}
-    yield from vti_cases(flat, rest)
-    yield {'__level__': 'vti/blocks+multi/larger-grids'}
-    yield from vti_cases(blocks + list(MULTI), rest)
+                               'configs': cfgs, 'histories': hists}
 
 
 # ------------------------------------------------------------------------------------------------------- execution
@@ -381,7 +364,7 @@ def _vti_history(case, members, cfg, hist, d, sink, dim, nel, nnodes):
                 sink.chk(seen.get(f) == raw, 'vti_earlier_file_changed', {}, nar, file=f, call=s)
                 continue
             seen[f] = raw
-            nt = _judge_vti_file(path, f, members, tags, written[it], case, scale, dim, nel, nnodes, sink, nar)
+            nt = _judge_vti_file(raw, f, members, tags, written[it], case, scale, dim, nel, nnodes, sink, nar)
             if nt is None:
                 tag = 'bad'
             else:
@@ -392,12 +375,12 @@ def _vti_history(case, members, cfg, hist, d, sink, dim, nel, nnodes):
     return tag, nontrivial, steps
 
 
-def _judge_vti_file(path, fname, members, tags, states, case, scale, dim, nel, nnodes, sink, nar):
+def _judge_vti_file(raw, fname, members, tags, states, case, scale, dim, nel, nnodes, sink, nar):
     """Returns None if something was wrong, else whether a non-constant array was compared."""
     nx, ny, nz = case['grid']
     ok = True
     try:
-        dec = rv.decode_vti(path)
+        dec = rv.decode_vti(raw)
     except rv.VTIFormatError as e:
         sink.chk(False, 'vti_malformed', {'what': e.what}, nar, file=fname, error=str(e)[:300])
         return None
